@@ -338,7 +338,7 @@ def js_pipeline(run, label, alphabet, maxlen, header):
     d = tlcrun.new_scratch('extp')
     consts = {'DlmA': 44, 'DlmB': 0, 'EmitCases': 'TRUE', 'Recs': '{}', 'MaxRecs': 0, 'WPolicies': '{}', 'LineSeps': '{}',
               'PAlphabet': '{' + ', '.join(map(str, alphabet)) + '}', 'PMaxLen': maxlen, 'InPolicies': '{"simple", "quoted", "quoted_rfc"}',
-              'OutPolicies': '{"simple", "quoted", "quoted_rfc"}', 'OutDlm': 59, 'WithHeader': 'TRUE' if header else 'FALSE'}
+              'OutPolicies': '{"simple", "quoted", "quoted_rfc"}', 'OutDlm': 59, 'WithHeader': 'TRUE' if header else 'FALSE', 'PQueries': '{1, 2}'}
     cfg = tlcrun.write_cfg(os.path.join(d, label + '.cfg'), constants=consts, init='PInit', next_='PNext', invariants=['ReReadable', 'PEmit'])
     res = tlcrun.run_tlc('Pipeline', cfg, timeout=7200, heap='24g')
     run.add_tlc('Pipeline:' + label, res)
@@ -354,7 +354,7 @@ def js_pipeline(run, label, alphabet, maxlen, header):
                     f.write(S(case['text']).encode('utf-8'))
             for bulk in (False, True):
                 reqs.append({'op': 'query_csv', 'query': 'select *' if case['qk'] == 1 else 'select NR, a1', 'input': texts[key], 'output': os.path.join(root, 'o%d.csv' % len(reqs)),
-                             'in_dlm': ',', 'in_policy': case['ipol'], 'out_dlm': ';', 'out_policy': case['opol'], 'with_headers': bool(case['header']), 'bulk': bulk})
+                             'in_dlm': S(case['indlm']), 'in_policy': case['ipol'], 'out_dlm': ';', 'out_policy': case['opol'], 'with_headers': bool(case['header']), 'bulk': bulk})
                 meta.append((case, bulk))
         resp = node.run_batch(reqs, nproc=par.NPROC)
         for (case, bulk), r in zip(meta, resp):
